@@ -3,3 +3,4 @@ import DnsModel.Name
 import DnsModel.Labels
 import DnsModel.Msg
 import DnsModel.Compress
+import DnsModel.Truncate
